@@ -9,6 +9,9 @@ R05.2 stationarity by MRO: classes with StationaryQ resolve calcQ to it; the
       time-reversible check stays on every path of TimeReversible.__init__
 R05.3 rate classes average to one: calc returns X / sum(weights * X)
 R05.4 exponentiator option table is exhaustive
+
+Added in build round 2 (see DESIGN.md section 3, round-2 table):
+R05.5 P(t) is a function of t alone: in every exponentiator class, __call__ and the self-methods it calls assign no instance attribute (state computed in ...
 """
 
 from __future__ import annotations
